@@ -132,6 +132,11 @@ Proof.
   - destruct Ha as [Ha _], Hb as [Hb _]. apply Hsame; [congruence|lia|exact Hk].
 Qed.
 
+(** check_future_secret accepts exactly the channel's own secret of the number asked *)
+Lemma check_future_secret_spec (sha : bytes -> bytes) (k : chkeys) (n : nat) (s : bytes) :
+  check_future_secret sha k n s = true <-> s = commit_secret sha k n.
+Proof. unfold check_future_secret. apply bytes_eqb_eq. Qed.
+
 Section KeysProofs.
   Variable hkdf : bytes -> bytes -> bytes -> nat -> bytes.
   Variable sha : bytes -> bytes.
